@@ -71,6 +71,12 @@ func LoadProgram(harnessDir string) (*Program, error) {
 		overlay[filepath.Join(d, "zz_verif_api.go")] = []byte(strings.Replace(string(tmpl), "PKGNAME", name, 1))
 	}
 	delete(extra, "./_api")
+	shared, err := os.ReadFile(filepath.Join(harnessDir, "_api", "shared.go.tmpl"))
+	if err != nil {
+		return nil, err
+	}
+	overlay[filepath.Join(RepoDir, "zzverif/api/api.go")] = shared
+	extra["./zzverif/api"] = true
 	cfg := &packages.Config{
 		Mode:    packages.LoadAllSyntax,
 		Dir:     RepoDir,
